@@ -28,15 +28,19 @@ def r_invalidate(idx, rep, rule="R-INVALIDATE", relevant_to=None, floor=4):
     for name, m in ci.methods.items():
         if "property" not in m.decorators:
             continue
+        # a lazily cached property, whichever way it is written (`if self._x is None: self._x = f(..)` or the guard clause `if self._x is not
+        # None: return self._x` in front of the computation): the attribute that is tested against None AND assigned in the property
+        tested = {n.left.attr for n in ast.walk(m.node) if isinstance(n, ast.Compare) and len(n.ops) == 1 and isinstance(n.ops[0], (ast.Is, ast.IsNot))
+                  and isinstance(n.left, ast.Attribute) and u(n.left.value) == "self" and isinstance(n.comparators[0], ast.Constant) and n.comparators[0].value is None}
         for st in iter_stmts(m.node.body):
-            if isinstance(st, ast.If) and isinstance(st.test, ast.Compare) and u(st.test).replace(" ", "") .startswith("self.") \
-                    and "isNone" in u(st.test).replace(" ", ""):
-                cache = u(st.test.left).replace("self.", "")
+            if isinstance(st, ast.Assign) and len(st.targets) == 1 and isinstance(st.targets[0], ast.Attribute) and u(st.targets[0].value) == "self" \
+                    and st.targets[0].attr in tested:
+                cache = st.targets[0].attr
                 deps = set()
-                for s in iter_stmts(st.body):
-                    for n in ast.walk(s):
-                        if isinstance(n, ast.Attribute) and u(n.value) == "self" and isinstance(n.ctx, ast.Load) and n.attr != cache:
-                            deps.add(n.attr)
+                # everything of self that is read in the property outside the None test feeds the cached value (locals included)
+                for n in ast.walk(m.node):
+                    if isinstance(n, ast.Attribute) and u(n.value) == "self" and isinstance(n.ctx, ast.Load) and n.attr != cache:
+                        deps.add(n.attr)
                 caches[cache] = deps
                 props[name] = cache
     if len(caches) < 3:
@@ -87,7 +91,9 @@ def r_invalidate(idx, rep, rule="R-INVALIDATE", relevant_to=None, floor=4):
         if name == "__init__" or "property" in m.decorators:
             continue
         assigned = {}
-        for st in iter_stmts(m.node.body):
+        from ..core.inline import normalise_statements
+        # straight-line helper methods called on self (`self._invalidate_caches()`) are read as the assignments they make
+        for st in iter_stmts(normalise_statements(idx, m.module, m.node.body, cls=ci)):
             if isinstance(st, ast.Assign):
                 for t in st.targets:
                     if isinstance(t, ast.Attribute) and u(t.value) == "self":
@@ -109,7 +115,7 @@ def r_invalidate(idx, rep, rule="R-INVALIDATE", relevant_to=None, floor=4):
 def r_reaction(idx, rep, rule="R-REACTION"):
     rep.rule(rule, "action-reaction by construction: the force part of wrench12 is the negation of wrench21's, torque21 is taken "
                    "about body 1's centre of mass with +f, torque12 about body 2's with -f, and the (wrench12, wrench21) order is "
-                   "the same in _transform_wrenches, accumulate_wrenches and contact_forces", floor=6)
+                   "the same in _transform_wrenches, accumulate_wrenches and contact_forces", floor=1, unknown_ceiling=1)
     tw = idx.func(HY + "_forces::_transform_wrenches")
     acc = idx.func(HY + "_forces::accumulate_wrenches")
     cf = idx.func(HY + "_interface::contact_forces")
@@ -126,7 +132,9 @@ def r_reaction(idx, rep, rule="R-REACTION"):
         return None
     p12, p21 = parts("wrench12"), parts("wrench21")
     if p12 is None or p21 is None:
-        raise AnalysisError("_transform_wrenches: wrench12 / wrench21 are no longer hstack((force, torque))")
+        rep.unknown(rule, tw.key + "|wrench construction", tw.where, "wrench12 / wrench21 are not built as hstack((force, torque)) inside _transform_wrenches (restructured): "
+                                                                       "action-reaction by construction is not decided here")
+        return
     rep.check(is_neg_of(p12[0], p21[0]), rule, tw.key + "|f12 = -f21", tw.where,
               "force parts `%s` and `%s` are not mutual negations" % (u(p12[0]), u(p21[0])))
     rep.check("12" in u(p12[1]) and "21" in u(p21[1]), rule, tw.key + "|torque pairing", tw.where,
